@@ -64,7 +64,7 @@ impl AssetInfoRaw {
 //%fn contracts/halo-factory/src/state.rs | - | pair_key
 //%%rewrite #1 /asset_infos\.to_vec\(\)/ => vec2_clone(asset_infos) ## R4: [T;2]::to_vec -> verified helper
 //%%rewrite #1 /asset_infos\.sort_by\(\|a, b\| \{((?s:.*?))\}\);/ => vsort2_by(&mut asset_infos, |a: &AssetInfoRaw, b: &AssetInfoRaw| -> (o: Ordering) ensures o == key_order(*a, *b) {\1}); ## R4: slice::sort_by on a 2-element Vec -> verified helper; the comparator closure is annotated with the order it must implement and verified against its real body
-//%%rewrite #1 /\(first\.len\(\) as u64\)\.to_be_bytes\(\)/ => u64_to_be_bytes(first.len() as u64) ## shim: u64::to_be_bytes through a named wrapper carrying its assumed contract
+//%%rewrite #1 /\(([A-Za-z_][A-Za-z0-9_\.\[\]]*\.len\(\)) as u64\)\.to_be_bytes\(\)/ => u64_to_be_bytes(\1 as u64) ## shim: u64::to_be_bytes through a named wrapper carrying its assumed contract
 //%%sig
     ensures
         /*[C16 key.encoding]*/ r@ == pair_key_spec(asset_infos[0], asset_infos[1]),
